@@ -16,11 +16,21 @@ from harness.common import Failure, lean_run
 PROP_MODULES = ["ArmiVerif.Props.C07", "ArmiVerif.Props.C07Grid"]
 PARTIAL = ("coordinates are compared up to floating-point rounding (1e-9 relative); sqrt(3) handled "
            "algebraically (integer coefficient basis); float sqrt in numRingsToHoldNumCells modelled by Nat.sqrt, "
-           "tie stated for n < 2^50")
+           "tie stated for n < 2^50; generic grids: geomType/symmetry string normalisation (GeomType/SymmetryType.fromAny) "
+           "is exercised, not modelled; theta-R-Z x/y conversion is modelled with cos/sin as parameters; reduce() of a grid "
+           "mixing a 2-D step matrix with a bounds dimension is a known finding (grid-reduce-mixed-step-bounds), the "
+           "round-trip theorem covers the other well-formed grids")
 ASSUMPTIONS = [
     "math.sqrt in numRingsToHoldNumCells is modelled by the exact integer square root; agreement checked "
     "exhaustively for small n and at every ring boundary sampled",
     "string formatting of labels ({:03d}) is exercised on the implementation only",
+    "generic grids (Model/Grid.lean): geomType / symmetry strings are passed to the model already normalised "
+    "(str(GeomType.fromAny(x)), str(SymmetryType.fromAny(x))); idempotence of that normalisation is exercised by the "
+    "rebuild oracle, not modelled",
+    "hexagon.SQRT3 enters hexChangePitch as a rational parameter (exact value of the double); the theta-R-Z x/y "
+    "conversion takes cos(theta), sin(theta) as parameters (exact values of math.cos/math.sin doubles)",
+    "reduce() of a grid mixing a 2-D unit-step matrix with a bounds dimension cannot be rebuilt (known finding "
+    "grid-reduce-mixed-step-bounds); the model reproduces the failure (theorem reduce_mixed_not_rebuildable)",
 ]
 
 SQ3 = math.sqrt(3.0)
